@@ -37,6 +37,8 @@ class CPool:
     ncalls = 0
 
     def __init__(self, processes=None, *a, **k):
+        if processes is not None and processes < 1:
+            raise ValueError("Number of processes must be at least 1")      # as multiprocessing.Pool
         self._processes = processes or CPool.policy.get('processes') or os.cpu_count() or 1       # what multiprocessing.Pool records
         self._pending = []
 
@@ -290,6 +292,17 @@ def worker_init(repo, quiet=True, scratch_root=None):
     atexit.register(lambda: shutil.rmtree(W['scratch'], ignore_errors=True))
 
 
+ALIVE = []
+
+
+def kept_alive(obj):
+    """the tool object stays referenced (as in a user's script: cld = Colander(...); cld.strain()) while its output is
+    read - whatever it still holds open or buffered is not released by garbage collection; the last few are kept"""
+    ALIVE.append(obj)
+    del ALIVE[:-4]
+    return obj
+
+
 def scratch_dir(tag):
     # digits are dropped from the tag on purpose: within one worker process
     # successive cases REUSE the same paths, so state kept by the
@@ -417,7 +430,7 @@ def proof_gate(pid, thorough=False):
 def two_dirs_case(pid, tool, seed):
     """runs harness.twodirs_child in a child process (real process pools, relative paths, a chdir between two runs of
     the same call on same-named inputs with other data) -> case result dict"""
-    out = dict(evals=1, keys=[khash('two-dirs', tool, seed)], dist={f'case=relative paths in two working directories, real pools ({tool})': 1},
+    out = dict(evals=1, keys=[khash('two-dirs', tool, seed)], dist={f'case=relative paths in two working directories, real pools with a delayed end-of-tasks mark ({tool})': 1},
                samples=[], violations=[], disagreements=[])
     root = scratch_dir(f"twodirs_{tool}_{seed}")
     os.makedirs(root)
@@ -431,7 +444,7 @@ def two_dirs_case(pid, tool, seed):
         if 'DONE' not in lines:
             bads.append('the scenario died: ' + (r.stderr.strip().splitlines() or ['?'])[-1][:300])
     except subprocess.TimeoutExpired:
-        bads = ['the scenario did not terminate within 240 s']
+        bads = ['the scenario (real pools, end-of-tasks mark of every imap delayed by 0.2 s) did not terminate within 240 s']
     for b in bads[:3]:
         out['violations'].append(dict(desc, kind='two-dirs', what=b))
     return out
